@@ -60,7 +60,7 @@ def cells(tier):
                 out.append({'prog': 'A', 'lmtp': lmtp, 'pipe': pipe, 'n': 1,
                             'c': 1, 'chars': 1, 'nsym': 2})
     # more commands in flight than any fixed-size buffer would hold
-    out.append({'prog': 'A', 'lmtp': 0, 'pipe': 1, 'n': 120, 'c': 1,
+    out.append({'prog': 'A', 'lmtp': 0, 'pipe': 1, 'n': 102, 'c': 0,
                 'chars': 1, 'nsym': 1})
     for pipe in (0, 1):
         # the same address given to RCPT twice (LMTP owes one end-of-data
